@@ -35,7 +35,8 @@ Qed.
    was given -- assignments, calls with all parameter forms, IF / ELSIF / ELSE, FOR [BY], WHILE, REPEAT, EXIT, RETURN, nested
    to any depth, expressions over all operators -- whatever the size.  [rstmt] excludes the recorded gap (a negative
    integer constant is written '- 5') and empty loop / ELSIF bodies (written as an empty statement, which the spelled
-   lists do not cover); integer constants must print and read back ([int_ok], decided by evaluation for each value). *)
+   lists do not cover); integer constants are below 2^128, the range of the syntax tree (printing in decimal and reading
+   back is proved in Proofs/DecProofs.v). *)
 Theorem C10_statements_render_is_spelling : forall l, l <> [] -> Forall StRenderProofs.rstmt l ->
   StStmtProofs.wf_l token StInstance.tok_class StInstance.op_level (StRender.body_sp StRender.ss_of l) /\
   StStmtProofs.erase_l token t_text StInstance.tok_num (StRender.body_sp StRender.ss_of l) = l.
